@@ -31,17 +31,25 @@ def s_mode_dot(draw):
     j = draw(st.integers(1, 4))
     mshape = [shape[mode]] if vec else ([shape[mode], j] if tr else [j, shape[mode]])
     bad = draw(st.integers(0, 7)) == 0
-    if bad:                              # mismatched contraction size: the call must exit by ValueError
-        mshape = [m + 1 if m == shape[mode] else m for m in mshape]
     return {"X": draw(enc(shape)), "M": draw(enc(mshape)), "mode": mode, "transpose": tr, "kind": "vector" if vec else "matrix", "bad": bad}
 
 
+def _grow(encd, axis):
+    """same encoded array with one more entry along `axis` (used to build mismatched operands)"""
+    d = dict(encd)
+    d["s"] = [x + 1 if i == axis else x for i, x in enumerate(encd["s"])]
+    return d
+
+
 def b_mode_dot(e, ctx):
-    return Call(_dispatch("mode_dot"), dict(tensor=ctx.A(e["X"]), matrix_or_vector=ctx.A(e["M"]), mode=e["mode"], transpose=e["transpose"]),
+    M = e["M"]
+    if e["bad"]:                         # mismatched contraction size: the call must exit by ValueError
+        M = _grow(M, 0 if (e["kind"] == "vector" or e["transpose"]) else 1)
+    return Call(_dispatch("mode_dot"), dict(tensor=ctx.A(e["X"]), matrix_or_vector=ctx.A(M), mode=e["mode"], transpose=e["transpose"]),
                 expect_exc=e["bad"])
 
 
-register("mode_dot", s_mode_dot(), b_mode_dot, dtypes=CPLX, backends=True, quick=150)
+register("mode_dot", s_mode_dot(), b_mode_dot, dtypes=CPLX, backends=True, quick=150, flags=("cvg",))
 
 
 # ---- multi_mode_dot -------------------------------------------------------------
@@ -137,17 +145,15 @@ def s_inner(draw):
         common = a[:k]
         ash = pre + common
         b = common + post
-    if bad:
-        b = list(b)
-        b[0] = b[0] + 1
     return {"A": draw(enc(ash)), "B": draw(enc(b)), "n_modes": k, "bad": bad}
 
 
 def b_inner(e, ctx):
-    return Call(_dispatch("inner"), dict(tensor1=ctx.A(e["A"]), tensor2=ctx.A(e["B"]), n_modes=e["n_modes"]), expect_exc=e["bad"])
+    B = _grow(e["B"], 0) if e["bad"] else e["B"]       # mismatched shapes: must exit by ValueError
+    return Call(_dispatch("inner"), dict(tensor1=ctx.A(e["A"]), tensor2=ctx.A(B), n_modes=e["n_modes"]), expect_exc=e["bad"])
 
 
-register("inner", s_inner(), b_inner, dtypes=CPLX, backends=True, quick=150)
+register("inner", s_inner(), b_inner, dtypes=CPLX, backends=True, quick=150, flags=("cvg",))
 
 
 @st.composite
